@@ -72,6 +72,8 @@ Definition dispatch (kind : string) (args : list string) : string :=
     match args with [] => out3 census_blocking "-" "-" | _ => BADARGS end
   else if String.eqb kind "pkgvars" then
     match args with [] => out3 census_pkgvars "-" "-" | _ => BADARGS end
+  else if String.eqb kind "switches" then
+    match args with [] => out3 census_switches "-" "-" | _ => BADARGS end
   else if String.eqb kind "gocensus" then
     match args with
     | [] => out3 static_gocensus "-" "-"
